@@ -187,7 +187,10 @@ fn c03(rep: &mut Report, g: &mut G, thorough: bool) {
         ("v4", "v4", rs_public!(paseto_v4::core::V4)),
         ("v4", "v4-sodium", rs_public!(paseto_v4_sodium::core::V4)),
     ];
-    let lens: Vec<usize> = if thorough { (1..=1000).collect() } else { (1..=300).collect() };
+    // dense sweep, then lengths around the powers of two up to 2^17 (a backend that changes algorithm or buffering above a
+    // size threshold is self-consistent and only an independent implementation sees it)
+    let mut lens: Vec<usize> = if thorough { (1..=1000).collect() } else { (1..=300).collect() };
+    lens.extend([1023usize, 1024, 1025, 2047, 2048, 2049, 4095, 4096, 4097, 8191, 8192, 8193, 16384, 32768, 65535, 65536, 65537, 100_000, 131_072]);
     let footers: [&[u8]; 3] = [b"", b"f", b"{\"kid\":\"k4.lid.x\"}"];
     for (ver, name, (seal, open)) in &local_backends {
         let (tseal, topen) = tp_local(ver);
